@@ -237,6 +237,10 @@ def run(gen, scenario, moment=None, reinit=False, idle=8000):
     logging.getLogger("pyairtouch").addHandler(logging.NullHandler())
     logging.getLogger("pyairtouch").propagate = False
     logging.getLogger("asyncio").setLevel(logging.CRITICAL)
+    # the socket has branches that depend on the log level: debug logging is on in half of the runs
+    import zlib
+    dbg = zlib.crc32(repr((gen, moment, sorted((k, str(v)) for k, v in scenario.items() if k != "inst"))).encode()) & 1
+    logging.getLogger("pyairtouch.comms.socket").setLevel(logging.DEBUG if dbg else logging.WARNING)
     env = Env(gen, scenario)
     loop = env.loop
     loop.max_passes = 3_000_000
@@ -394,6 +398,10 @@ def _fault(env, what):
         c.peer_eof()
     elif what == "reset":
         c.peer_reset()
+    elif what == "timeout":
+        c.peer_reset(2)          # the path is gone: recv() fails with ETIMEDOUT
+    elif what == "unreach":
+        c.peer_reset(3)          # ... or EHOSTUNREACH (OSErrors outside the ConnectionError family)
     elif what == "refuse":
         env.net.mode = "refuse"
     elif what == "accept":
@@ -413,6 +421,8 @@ SCENARIOS = {
     "silent3": dict(inst=INST, silent_from=3, horizon=120),
     "silent0": dict(inst=INST, silent_from=0, horizon=120),
     "pending": dict(inst=INST, horizon=260, calls=[(60, "power"), (100, "toggle"), (101, "zone")], faults=[(90, "refuse"), (95, "eof"), (150, "accept")]),
+    "pending_timeout": dict(inst=INST, horizon=260, calls=[(60, "power"), (100, "toggle"), (101, "zone")], faults=[(90, "refuse"), (95, "timeout"), (150, "accept")]),
+    "lost_unreach": dict(inst=INST, horizon=200, calls=[(70, "zone")], faults=[(64, "unreach")]),
     "heartbeat": dict(inst=INST, horizon=2700),
     "dead_link": dict(inst=INST, horizon=5600, silent_from=8),
 }
